@@ -233,6 +233,17 @@ def slow(x):
         time.sleep(60)
     return x
 
+@pipeline(%(nworkers)d, extracache=%(extracache)d)
+def stubborn(x):
+    # a function with a catch-all retry loop (or a slow finally): whatever is raised inside it, it carries on
+    if x > 0:
+        while True:
+            try:
+                time.sleep(60)
+            except BaseException:
+                pass
+    return x
+
 def kids():
     me = os.getpid(); res = []
     for d in os.listdir('/proc'):
@@ -266,7 +277,7 @@ def settle():
         time.sleep(0.02)
     gc.collect()
 
-def forked_consumer(way):
+def forked_consumer(way, slow=slow):
     # the stage was made in this process (above); a forked child of the program runs a stream of it and ends it early while
     # its workers are busy
     r, w = os.pipe()
@@ -302,12 +313,32 @@ def forked_consumer(way):
             os.write(w, json.dumps(rep).encode())
             os._exit(0)
     os.close(w)
+    import select
     data = b''
-    while True:
-        b = os.read(r, 65536)
-        if not b:
-            break
-        data += b
+    t0 = time.time()
+    while time.time() - t0 < 20:
+        if select.select([r], [], [], 0.5)[0]:
+            b = os.read(r, 65536)
+            if not b:
+                break
+            data += b
+    else:
+        # the child is stuck in ending its stream: take it and its workers away, report that
+        for k, _ in kids():
+            pass
+        try:
+            for d in os.listdir('/proc'):
+                if d.isdigit():
+                    try:
+                        st = open('/proc/%%s/stat' %% d).read()
+                        if int(st[st.rfind(')') + 2:].split()[1]) == pid:
+                            os.kill(int(d), 9)
+                    except (OSError, ValueError):
+                        pass
+            os.kill(pid, 9)
+        except OSError:
+            pass
+        data = json.dumps({'error': 'ending the stream did not return within 20 s'}).encode()
     os.close(r)
     os.waitpid(pid, 0)
     return json.loads(data.decode() or '{}')
@@ -353,6 +384,7 @@ def main():
     rep = {'fd_base': base, 'fd_after': after, 'streams': len(ways), 'kids_left': kids()}
     rep['cyclic'] = cyclic_then_next()
     rep['forked'] = forked_consumer(%(forkway)r)
+    rep['stubborn'] = forked_consumer('close' if %(forkway)r == 'drop' else %(forkway)r, stubborn)
     print(json.dumps(rep), flush=True)
 
 main()
@@ -413,6 +445,13 @@ def process_history_cases(ctx):
             if cy['left']:
                 ctx.fail('worker-outlives-stream', 'a stream abandoned inside a reference cycle, another parallel stream run before the collector came: '
                          'after gc.collect() its workers %s are still there' % (cy['left'],), case)
+            sb = info.get('stubborn') or {}
+            if 'error' in sb or 'left' not in sb:
+                ctx.fail('worker-outlives-stream', 'a stream whose function swallows every exception (a catch-all retry loop), ended with a worker inside '
+                         'the function: %r' % (sb,), case)
+            elif sb['left']:
+                ctx.fail('worker-outlives-stream', 'a stream whose function swallows every exception, ended with a worker inside the function: %d s later '
+                         'its workers %s are still there' % (sb['after_s'], sb['left']), case)
             fk = info['forked']
             if 'error' in fk or 'left' not in fk:
                 ctx.fail('forked-consumer-fails', 'a forked child running a stream of an inherited stage: %r' % (fk,), case)
